@@ -120,6 +120,20 @@ impl TilemapData {
         Some(&self.tiles[index])
     }
 
+    // Checks that every tile refers to a tile of a tileset with `tile_count` tiles.
+    pub(crate) fn validate_tile_ids(&self, tile_count: u32) -> Result<()> {
+        for tile in self.tiles.iter() {
+            if tile.id() >= tile_count {
+                return Err(AsepriteParseError::InvalidInput(format!(
+                    "Tilemap references tile {} but the tileset has only {} tiles",
+                    tile.id(),
+                    tile_count
+                )));
+            }
+        }
+        Ok(())
+    }
+
     pub(crate) fn parse_chunk<R: Read>(mut reader: AseReader<R>) -> Result<Self> {
         let width = reader.word()?;
         let height = reader.word()?;
